@@ -122,6 +122,17 @@ CHECKS = {
    note="Trusted: TLC, TotpSerial.tla, urllib.parse as independent URI reader. Strings are abstract symbols in the spec (quoting is bound by the "
         "harness). AppWallet encryption is not exercised (no AES support on this host).",
    technique="TLA+ spec (TotpSerial.tla) model-checked with TLC + exhaustive spec-to-implementation replay of the enumerated cases"),
+ "C19": dict(cat=MC, design="DESIGN.md §3 C19",
+   text="LazyInit.tla models N threads racing through the lazy-initialisation protocol (check, lock, take arguments, onload, clear, build, switch, "
+        "call); TLC shows over all interleavings of 3 threads that the locked protocol gives every thread the sequential result and terminates under "
+        "weak fairness, and refutes the unprotected protocol (negative control). A deterministic scheduler (sys.monitoring instruction events + "
+        "cooperative locks) executes ALL real two-thread schedules with one preemption and a sample with two, inside the initialisation code of a fresh "
+        "LazyCryptContext (with/without onload), fresh multi-backend hashers, a fresh lazy base64 engine and an unloaded registry name; every thread "
+        "must get the single-threaded result, and every executed schedule is validated as a behaviour of the locked protocol (Trace_LazyInit). "
+        "Free-running 8-thread stress is run as well.",
+   note="Trusted: TLC, LazyInit.tla, the scheduler. Yield points: bytecode instructions of the listed functions and lock operations; C-level atomicity "
+        "(GIL build) assumed. bcrypt's shared-owner backend loading is not schedule-explored.",
+   technique="TLA+ spec (LazyInit.tla) model-checked with TLC (safety + liveness) + preemption-bounded enumeration of real schedules validated against the spec"),
 }
 PENDING = {}
 props = [json.loads(l) for l in open(os.path.join(HERE, "properties.jsonl"))]
